@@ -90,14 +90,20 @@ def gen(rng):
     pres = [[] for _ in range(n_part)]
     nwin = rng.randint(1, 8)
     eff_w = window if window is not None else lat
-    for _ in range(rng.randint(1, 8)):
+    start = rng.choice([0, 0, 0, 2_000_000_000, 100_000_000_000, 7 * lat_ns + 3])
+    for _ in range(rng.randint(1, 9)):
         tgt = rng.randrange(n_ent)
         k = rng.randrange(0, nwin + 1)
         t = es.ns_of(k * eff_w) + rng.choice([0, 0, 1, -1, lat_ns // 2, (7 * lat_ns) // 2])
-        pres[pmap[tgt]].append(dict(time=max(0, t), emit=dict(dt=0, target=tgt, type=rng.randrange(n_types), daemon=False, label=-1, hooks=[]), cancel=False))
-    end = max(1, es.ns_of(nwin * eff_w) + rng.choice([0, 0, 1, lat_ns // 2]))
-    return dict(prog=prog, pmap=pmap, n_part=n_part, links=links if linked else [], pres=pres, start=0, end=end,
-                window=window, lat=lat, fuel=400)
+        # cancelled timers sitting just before / on a window boundary are part of the quantifier
+        pres[pmap[tgt]].append(dict(time=start + max(0, t), emit=dict(dt=0, target=tgt, type=rng.randrange(n_types), daemon=False, label=-1, hooks=[]),
+                                    cancel=rng.random() < 0.25))
+    span = max(1, es.ns_of(nwin * eff_w) + rng.choice([0, 0, 1, lat_ns // 2]))
+    end = start + span
+    # construct with duration= when the float round trip is exact, else with end_time=
+    use_duration = rng.random() < 0.5 and int((span / 1e9) * 1_000_000_000) == span
+    return dict(prog=prog, pmap=pmap, n_part=n_part, links=links if linked else [], pres=pres, start=start, end=end,
+                window=window, lat=lat, fuel=400, use_duration=use_duration)
 
 
 class _TT(logging.Handler):
@@ -143,11 +149,18 @@ def impl(c):
     lg.setLevel(logging.WARNING)
     status, obs, err = 0, [], None
     try:
-        ps = ParallelSimulation(partitions=parts, links=links or None, end_time=Instant(c["end"]),
-                                window_size=c["window"] if links else None)
+        if c.get("use_duration"):
+            ps = ParallelSimulation(partitions=parts, links=links or None, start_time=Instant(c["start"]),
+                                    duration=(c["end"] - c["start"]) / 1e9, window_size=c["window"] if links else None)
+        else:
+            ps = ParallelSimulation(partitions=parts, links=links or None, start_time=Instant(c["start"]), end_time=Instant(c["end"]),
+                                    window_size=c["window"] if links else None)
         for i, pre in enumerate(c["pres"]):
             for x in pre:
-                ps.schedule(w.mk_event(0, dict(x["emit"], dt=x["time"])), partition=f"p{i}")
+                ev = w.mk_event(0, dict(x["emit"], dt=x["time"]))
+                ps.schedule(ev, partition=f"p{i}")
+                if x["cancel"]:
+                    ev.cancel()
         w.prerun[0] = False
         pops = {}
         for i in range(n_part):
@@ -178,7 +191,10 @@ def impl(c):
         sim = Simulation(start_time=Instant(c["start"]), end_time=Instant(c["end"]), entities=list(w2.entities))
         for pre in c["pres"]:
             for x in pre:
-                sim.schedule(w2.mk_event(0, dict(x["emit"], dt=x["time"])))
+                ev = w2.mk_event(0, dict(x["emit"], dt=x["time"]))
+                sim.schedule(ev)
+                if x["cancel"]:
+                    ev.cancel()
         w2.prerun[0] = False
         p2 = []
         es.instrument_pops(sim, p2, 100000, w2)
